@@ -11,7 +11,7 @@ import sys
 HERE = os.path.dirname(os.path.dirname(os.path.abspath(__file__)))
 sys.path.insert(0, HERE)
 sys.path.insert(0, os.path.join(os.environ.get("VERIF_REPO", "/repo"), "src"))
-os.environ["YAW_NUM_THREADS"] = "1"
+os.environ["YAW_NUM_THREADS"] = "2" if (len(sys.argv) > 1 and sys.argv[1].endswith("p")) else "1"
 
 B1 = [0.1, 0.2, 0.4]
 B2 = [0.1, 0.3, 0.4]
@@ -74,17 +74,17 @@ def main():
     R = os.path.join(base, "R")
     if phase == "setup":
         os.makedirs(base, exist_ok=True)
-        if wl == "W1":
+        if wl in ("W1", "W1p"):
             pass
         elif wl == "W2":
             make(R, old)
-        elif wl in ("W3", "W4", "W5", "W6"):
+        elif wl in ("W3", "W4", "W5", "W5f", "W6"):
             cat = make(R, new, chunksize=3)
             make(os.path.join(base, "U"), unk)
             if wl == "W3":
                 for p in cat.values():
                     os.remove(p.cache_path / "meta.yml")
-            if wl in ("W5", "W6"):
+            if wl in ("W5", "W5f", "W6"):
                 cat.build_trees(B1)
         elif wl in ("W7", "W8", "W9"):
             cf, cd, conf = products("old")
@@ -95,7 +95,7 @@ def main():
             else:
                 conf.to_file(os.path.join(base, "conf.yml"))
     elif phase == "work":
-        if wl == "W1":
+        if wl in ("W1", "W1p"):  # W1p: two workers, the writer is a process of its own
             make(R, new, chunksize=3)
         elif wl == "W2":
             make(R, new, chunksize=3, overwrite=True)
@@ -105,6 +105,8 @@ def main():
             Catalog(R).build_trees(B1)
         elif wl == "W5":
             Catalog(R).build_trees(B2)
+        elif wl == "W5f":  # forced rebuild over trees of another binning
+            Catalog(R).build_trees(B2, force=True)
         elif wl == "W6":
             Catalog(R).build_trees(None)
         elif wl in ("W7", "W8", "W9"):
